@@ -151,43 +151,12 @@ def body(ctx):
     ctx.twin('c11.twin: some history ends with a terminal message', [], z3.BoolVal(not any(any(consumer_msg_kind(prog, m_) in TERMINALS for m_ in queue_msgs(s.roots['w'].slots['A']['consumers']['c0'][1])) for (s, _) in finished)))
 
 
-def consumer_api(ctx, prog):
-    """user side: Consumer::cancel / Drop never take anything out of the consumer's own queue (what the I/O thread queued,
-    including the terminal message, is still there for the user), send Basic.Cancel at most once, and are idempotent"""
-    import c12
+_LAST = {}
+
+
+def consumer_test():
     from apireplay import API_PRELUDE
-    ex = io_executor(ctx, prog, extra=cell_summaries())
-    f_cancel = prog.method('Consumer', 'cancel')
-    ctx.bound('consumer_api', 'Consumer::cancel on a consumer whose queue holds two unread messages, sender alive or gone, already cancelled or not, arbitrary reply to the Cancel')
-    viol = []
-    for alive in (True, False):
-        st = State()
-        cell, info = mk_channel(prog, st, replies=[Lazy('std::result::Result<ChannelMessage, errors::Error>', 'reply')])
-        q = Chan('consumer.queue', None, True)
-        q.queue += [Lazy('consumer::ConsumerMessage', 'unread0'), Lazy('consumer::ConsumerMessage', 'unread1')]
-        q.senders = 1 if alive else 0
-        cancelled = sym('consumer.cancelled', z3.BoolSort())
-        c = mk_struct(prog, 'Consumer', channel=Ref(st.roots['ch']), consumer_tag=Str(sym('self.tag', StrSort)), rx=ReceiverVal(q), cancelled=Agg({0: Bool(cancelled)}, 'Cell'))
-        st.roots['cq'] = q
-        n = 0
-        for (s, rv) in ex.run(st, f_cancel, [Ref(Cell(c, 'consumer'))]):
-            n += 1
-            q1 = s.roots['cq']
-            inf = s.roots['ch.info']
-            frames = sent_frames(prog, inf)
-            names = [getattr(m_, 'name', None) for m_ in q1.queue]
-            conds = [z3.BoolVal(names == ['unread0', 'unread1']), z3.BoolVal(not isinstance(rv, Panic))]
-            if len(frames) == 0:
-                conds.append(cancelled)
-            else:
-                one = len(frames) == 1 and frames[0][1] is not None and frames[0][1]['kind'] == 'method' and method_of(prog, frames[0][1])[:2] == ('Basic', 'Cancel')
-                conds += [z3.BoolVal(bool(one)), z3.Not(cancelled)]
-            m = ctx.decide(f"c11.consumer-cancel[{'alive' if alive else 'gone'}]#{n}", s.pc, z3.And(*conds),
-                           group="Consumer::cancel leaves the consumer's queue untouched (unread deliveries and the terminal message stay readable), sends Basic.Cancel exactly once per consumer, nothing when already cancelled")
-            if m is not None:
-                viol.append((alive, names, len(frames), ctx.explain(m, conds)[:2]))
-    if viol:
-        test = API_PRELUDE + r"""
+    return API_PRELUDE + r"""
 fn mk_delivery(chan: u16, tag: u64) -> crate::Delivery {
     let (_t, d) = crate::Delivery::new(chan, amq_protocol::protocol::basic::Deliver { consumer_tag: "t".into(), delivery_tag: tag, redelivered: false, exchange: "".into(), routing_key: "".into() }, Vec::new(), Default::default());
     d
@@ -217,9 +186,90 @@ fn verif_replay_c11_consumer_api() {
             std::mem::forget(c); std::mem::forget(ch); drop(keep);
         }
     }
+    // the first cancel fails (an unexpected reply): the consumer still counts as cancelled, a second cancel and the drop send nothing more
+    {
+        let (ch, rx, tx) = mk_channel(4, 4088);
+        let (_ctx2, crx) = crossbeam_channel::unbounded();
+        let c = crate::Consumer::new(&ch, "t".to_string(), crx);
+        tx.send(Ok(ChannelMessage::Method(AMQPClass::Basic(amq_protocol::protocol::basic::AMQPMethod::RecoverOk(amq_protocol::protocol::basic::RecoverOk {}))))).unwrap();
+        drop(tx);
+        let r1 = c.cancel();
+        let r2 = c.cancel();
+        drop(c);
+        let sent = raw_of(&rx).len();
+        if r1.is_ok() || r2.is_err() || sent != 1 { bad.push(format!("failed-first-cancel:first_ok={}:second_ok={}:cancel_frames={}", r1.is_ok(), r2.is_ok(), sent)); }
+        std::mem::forget(ch);
+    }
+    // a consumer dropped while its thread unwinds from a panic is cancelled like any other
+    {
+        let (ch, rx, tx) = mk_channel(4, 4088);
+        tx.send(Ok(ChannelMessage::Method(AMQPClass::Basic(amq_protocol::protocol::basic::AMQPMethod::CancelOk(amq_protocol::protocol::basic::CancelOk { consumer_tag: "t".into() }))))).unwrap();
+        let r = std::panic::catch_unwind(std::panic::AssertUnwindSafe(|| {
+            let (_ctx3, crx) = crossbeam_channel::unbounded::<ConsumerMessage>();
+            let _c = crate::Consumer::new(&ch, "t".to_string(), crx);
+            panic!("application failure while consuming");
+        }));
+        let sent = raw_of(&rx).len();
+        if r.is_ok() || sent != 1 { bad.push(format!("drop-during-panic:cancel_frames={}", sent)); }
+        std::mem::forget(ch);
+    }
     if bad.is_empty() { println!("VERIF-REPLAY-OK"); } else { println!("VERIF-REPLAY-VIOLATION consumer-cancel-api {}", bad.join(";").replace(' ', "_")); }
 }
 """
+
+
+def _fork_with(st):
+    _LAST['st'] = st.fork()
+    return _LAST['st']
+
+
+def consumer_api(ctx, prog):
+    """user side: Consumer::cancel / Drop never take anything out of the consumer's own queue (what the I/O thread queued,
+    including the terminal message, is still there for the user), send Basic.Cancel at most once, and are idempotent"""
+    import c12
+    from apireplay import API_PRELUDE
+    ex = io_executor(ctx, prog, extra=cell_summaries())
+    f_cancel = prog.method('Consumer', 'cancel')
+    ctx.bound('consumer_api', 'Consumer::cancel on a consumer whose queue holds two unread messages, sender alive or gone, already cancelled or not, arbitrary reply to the Cancel')
+    viol = []
+    for alive in (True, False):
+        st = State()
+        cell, info = mk_channel(prog, st, replies=[Lazy('std::result::Result<ChannelMessage, errors::Error>', 'reply')])
+        q = Chan('consumer.queue', None, True)
+        q.queue += [Lazy('consumer::ConsumerMessage', 'unread0'), Lazy('consumer::ConsumerMessage', 'unread1')]
+        q.senders = 1 if alive else 0
+        cancelled = sym('consumer.cancelled', z3.BoolSort())
+        c = mk_struct(prog, 'Consumer', channel=Ref(st.roots['ch']), consumer_tag=Str(sym('self.tag', StrSort)), rx=ReceiverVal(q), cancelled=Agg({0: Bool(cancelled)}, 'Cell'))
+        st.roots['cq'] = q
+        st.roots['consumer'] = Cell(c, 'consumer')
+        f_drop = [f_ for fl_ in prog.funcs.values() for f_ in fl_ if prog.meta[id(f_)]['last'] == 'drop' and prog.meta[id(f_)]['impl'] is not None
+                  and prog.meta[id(f_)]['impl'].trait == 'Drop' and prog.meta[id(f_)]['impl'].self_ty.startswith('Consumer')]
+        if len(f_drop) != 1:
+            raise Unsupported(f"Drop impl of Consumer not found ({[f_.name for f_ in f_drop]})")
+        f_drop = f_drop[0]
+        for (entry, fn_) in (('cancel', f_cancel), ('drop', f_drop)):
+            n = 0
+            for (s, rv) in ex.run(_fork_with(st), fn_, [Ref(_LAST['st'].roots['consumer'])]):
+                n += 1
+                q1 = s.roots['cq']
+                inf = s.roots['ch.info']
+                frames = sent_frames(prog, inf)
+                names = [getattr(m_, 'name', None) for m_ in q1.queue]
+                conds = [z3.BoolVal(names == ['unread0', 'unread1']), z3.BoolVal(not isinstance(rv, Panic))]
+                if len(frames) == 0:
+                    conds.append(cancelled)
+                else:
+                    one = len(frames) == 1 and frames[0][1] is not None and frames[0][1]['kind'] == 'method' and method_of(prog, frames[0][1])[:2] == ('Basic', 'Cancel')
+                    conds += [z3.BoolVal(bool(one)), z3.Not(cancelled)]
+                # whatever the outcome, the consumer now counts as cancelled: a later cancel / the drop sends nothing more
+                cv = field(prog, s.roots['consumer'].value, 'Consumer', 'cancelled').fields[0]
+                conds.append(cv.b if isinstance(cv, Bool) else z3.BoolVal(False))
+                m = ctx.decide(f"c11.consumer-{entry}[{'alive' if alive else 'gone'}]#{n}", s.pc, z3.And(*conds),
+                               group="Consumer::cancel / Drop leave the consumer's queue untouched (unread deliveries and the terminal message stay readable) and send Basic.Cancel exactly once per consumer - nothing when already cancelled, nothing a second time whatever the first attempt returned, also when dropped during a panic")
+                if m is not None:
+                    viol.append((entry, alive, names, len(frames), ctx.explain(m, conds)[:2]))
+    if viol:
+        test = consumer_test()
         ctx.report('consumer-cancel-api', f"Consumer::cancel disturbs the consumer's own queue or the Cancel it sends: {str(viol[0])[:300]}", {'solver_counterexamples': [str(v)[:300] for v in viol[:4]]},
                    test, inject_into='src/io_loop/channel_handle.rs', profiles=('dev',), hang_is_violation=True)
 
